@@ -277,3 +277,18 @@ pub fn canon(p: &Pos) -> CKey {
     k[4] = (p.stm as u64) | ((p.castle as u64) << 1) | ((p.ep.map(|e| e as u64 + 1).unwrap_or(0)) << 5);
     k
 }
+
+/// digest of the build's Zobrist constants read black-box (identifies the draw of the build-time tables)
+pub fn zobrist_digest() -> u64 {
+    let mut dg = 0xcbf29ce484222325u64;
+    for k in KINDS {
+        for side in [Side::White, Side::Black] {
+            for sq in 0..64u8 {
+                let mut b = Board::new();
+                b.put(bb(sq), piece_of(k), color_of(side)).unwrap();
+                dg = (dg ^ b.current_position_hash()).wrapping_mul(0x100000001b3);
+            }
+        }
+    }
+    dg
+}
